@@ -62,3 +62,10 @@ Print Assumptions C15_flight_refuted_before_fix.
 
 Example C15_example : max_payload 1400 MCbc = 1327 /\ record_len MCbc 1327 = 1389 /\ min_pmtu MCbc = 77.
 Proof. vm_compute. repeat split; reflexivity. Qed.
+
+(* the numbers and tables this property's model uses are the ones the sources declare: Model/GenConsts.v is
+   regenerated from the repository under test (tools/consts) before every build *)
+From V Require Import Model.GenConsts Proofs.TieC15.
+Theorem C15_constants_are_the_sources : TieC15.tie.
+Proof. exact TieC15.tie_holds. Qed.
+Print Assumptions C15_constants_are_the_sources.
